@@ -1299,6 +1299,8 @@ class TaintInterp:
     def sorted_summary(self, a, kw, e, fi):
         src = a[0]
         key = kw.get("key")
+        if key is not None and key.kind in ("const", "none") and getattr(key, "x", None) is None:
+            key = None              # sorted(xs, key=None) is sorted(xs)
         if src.kind == "edgeview":
             o = self.src(ORDER, fi, e, "m.edges: endpoint orientation")
             el = add(tup([self.node(g=src.x), self.node(g=src.x)]), o)
